@@ -13,6 +13,11 @@ import (
 
 // ---- leaves ---------------------------------------------------------
 
+type plainErr string
+
+func (p plainErr) Error() string { return string(p) }
+func goErrNew(s string) error    { return plainErr(s) }
+
 // NoFmtLeaf: pointer type, Error() only.
 type NoFmtLeaf struct{ Msg string }
 
@@ -162,6 +167,18 @@ func (e *FmtArgLeaf) Format(s fmt.State, verb rune) { errors.FormatError(e, s, v
 func (e *FmtArgLeaf) FormatError(p errors.Printer) error {
 	p.Printf("%s [%v]", e.Msg, e.Aux)
 	return nil
+}
+
+// ProtoFailLeaf: a leaf that announces itself as a protobuf message but cannot be marshalled
+// (the library drops the payload with a warning and sends the rest).
+type ProtoFailLeaf struct{ Msg string }
+
+func (e *ProtoFailLeaf) Error() string  { return e.Msg }
+func (e *ProtoFailLeaf) Reset()         {}
+func (e *ProtoFailLeaf) String() string { return e.Msg }
+func (e *ProtoFailLeaf) ProtoMessage()  {}
+func (e *ProtoFailLeaf) Marshal() ([]byte, error) {
+	return nil, goErrNew("ProtoFailLeaf cannot be marshalled")
 }
 
 // PanicLeaf: Error() panics (never part of a generated tree: a hostile Is reference).
